@@ -21,13 +21,15 @@ const (
 )
 
 func (v ControlState) String() string {
+	if v < ModeUnknown || v > ModeControlled {
+		return ""
+	}
+
 	return [...]string{"", "normally open", "normally closed", "controlled"}[v]
 }
 
 func (v ControlState) MarshalJSON() ([]byte, error) {
-	s := [...]string{"", "normally open", "normally closed", "controlled"}[v]
-
-	return json.Marshal(s)
+	return json.Marshal(v.String())
 }
 
 func (v *ControlState) UnmarshalJSON(b []byte) error {
